@@ -4,6 +4,7 @@
 //!   vh record <prop> <seed> <n> <trace.ndjson>         direction V (implementation -> spec)
 mod c04;
 mod c12;
+mod c13;
 mod c19;
 mod util;
 
@@ -25,6 +26,7 @@ fn main() {
       match args[2].as_str() {
         "C04" => c04::replay(&cases, &mut rep),
         "C12" => c12::replay(&cases, &mut rep),
+        "C13" => c13::replay(&cases, &mut rep),
         "C19" => c19::replay(&cases, &mut rep),
         p => tool_error(&format!("no replay driver for {p}")),
       }
@@ -41,6 +43,7 @@ fn main() {
         "C04" => c04::record(seed, n, &mut out),
         "C12.list" => c12::record("list", seed, n, &mut out),
         "C12.cred" => c12::record("cred", seed, n, &mut out),
+        "C13" => c13::record(seed, n, &mut out),
         "C19.OrderedSet" => c19::record_ordered_set(seed, n, &mut out),
         "C19.OneOrSet" => c19::record_one_or_set(seed, n, &mut out),
         "C19.OneOrMany" => c19::record_one_or_many(seed, n, &mut out),
